@@ -1,8 +1,10 @@
 package main
 
 import (
+	"fmt"
 	"go/token"
 	"go/types"
+	"os"
 
 	"golang.org/x/tools/go/ssa"
 )
@@ -90,6 +92,9 @@ func (e *BE) ptrPostOf(fn *ssa.Function) *ptrPost {
 			best = k
 			break
 		}
+	}
+	if os.Getenv("DBGPP") != "" {
+		fmt.Fprintf(os.Stderr, "DBGPP %s best=%d rets=%d\n", fnKey(fn), best, len(rets))
 	}
 	if best == 0 {
 		return nil
